@@ -44,12 +44,36 @@ RealShapes == ndJsonDeserialize(IOEnv.SHAPES)
 RealInit == \E i \in 1..Len(RealShapes) : InitWith(RealShapes[i])
 RealSpec == RealInit /\ [][Next]_vars
 
+\* C03: shapes with explicit public-input values, commitments and key identity
+MkStmtShape(np, cm, pl, phs, nl, pc, dg, nt) ==
+  [ MkShape(np, cm, pl, phs, nl, pc, dg, nt, <<>>) EXCEPT !.plain = [p \in 1..np |-> pl] ]
+  @@ [ plainv |-> [p \in 1..np |-> [j \in 1..Len(pl) |-> [i \in 1..pl[j] |-> 100 * p + 10 * j + i]]],
+       comv |-> [p \in 1..np |-> [c \in 1..cm |-> 500 + 10 * p + c]],
+       vkid |-> 1 ]
+BindingInitQuick ==
+  \E np \in {1, 2}, cm \in {0, 1}, pl \in {<<>>, <<2, 1>>, <<0, 2>>},
+     phs \in { <<Ph(3, 0)>>, <<Ph(3, 1), Ph(1, 1)>> },
+     nl \in {0, 1}, pc \in {0, 4}, dg \in {3}, nt \in {0, 1} :
+       InitWith(MkStmtShape(np, cm, pl, phs, nl, pc, dg, nt))
+BindingInitThorough ==
+  \E np \in {1, 2, 3}, cm \in {0, 1, 2}, pl \in {<<>>, <<1>>, <<2, 1>>, <<0, 2>>, <<1, 1, 2>>},
+     phs \in { <<Ph(3, 0)>>, <<Ph(3, 1), Ph(1, 1)>>, <<Ph(4, 0), Ph(2, 1), Ph(1, 1)>> },
+     nl \in {0, 1, 2}, pc \in {0, 4, 7}, dg \in {3, 4}, nt \in {0, 1} :
+       InitWith(MkStmtShape(np, cm, pl, phs, nl, pc, dg, nt))
+BindingSpecQuick == BindingInitQuick /\ [][Next]_vars
+BindingSpecThorough == BindingInitThorough /\ [][Next]_vars
+BindingInv == Binding /\ Completeness
+\* print the edits the model explored, one line per terminal state
+EmitTamper ==
+  (Emit /\ tamper # NoTamper /\ verdict \in {"ok", "err"}) =>
+     PrintT("TAMPER " \o ToJson([tamper |-> tamper, verdict |-> verdict]))
+
 QuickSpec == QuickInit /\ [][Next]_vars
 ThoroughSpec == ThoroughInit /\ [][Next]_vars
 
 \* printed once per shape, in the terminal state
 EmitReplay ==
-  (Emit /\ verdict \in {"ok", "err"}) =>
+  (Emit /\ verdict \in {"ok", "err"} /\ tamper = NoTamper) =>
      PrintT("REPLAY " \o ToJson([shape |-> sh, expect |-> verdict]))
 
 \* dynamic invariants: every state; static ones (functions of the shape's two
